@@ -10,6 +10,9 @@ package main
 //	ins <path> <hexvalue> | del <path>
 //	layer                            (level only) save the pending changes to the side PNodeDB, then continue on a new
 //	                                 LevelNodeDB stacked on the current store (nodes now live on several levels)
+//	touch <v>                        what a pruning sweep does: every stored node is read (GetNode), its VERSION set to v
+//	                                 (SetVersion; the origin stays) and written back (PutNode) under its key; only `store`
+//	                                 ops may follow (the model keeps one version for all nodes)
 //	store                            inspect the trie's own store(s)
 //	save                             SaveChanges to the side PNodeDB, inspect it
 //
@@ -204,6 +207,27 @@ func runC14(ops []string) CaseResult {
 				return "ok"
 			})
 			tags["layered"] = true
+		case "touch":
+			v, _ := strconv.ParseInt(f[1], 10, 64)
+			out = guard(func() string {
+				var keys []util.Key
+				_ = st.db.Iterate(context.Background(), func(_ context.Context, key util.Key, _ util.Node) error {
+					keys = append(keys, append(util.Key(nil), key...))
+					return nil
+				})
+				for _, k := range keys {
+					n, err := st.db.GetNode(k)
+					if err != nil {
+						return errKind(err)
+					}
+					n.SetVersion(util.Sequence(v))
+					if err := st.db.PutNode(k, n); err != nil {
+						return errKind(err)
+					}
+				}
+				return "ok"
+			})
+			tags["version!=origin"] = true
 		case "store":
 			out = guard(func() string { return st.inspect("store", st.db, st.dir, fail, tags) })
 			inspected++
@@ -313,7 +337,15 @@ func genC14(r *rand.Rand, tier string, idx int) []string {
 			pool = append(pool, p0)
 		}
 	}
-	return append(ops, "store", "save")
+	ops = append(ops, "store", "save")
+	if r.Intn(2) == 0 {
+		tv := ver + 1 + int64(r.Intn(1000))
+		if r.Intn(4) == 0 {
+			tv = int64(r.Int63())
+		}
+		ops = append(ops, fmt.Sprintf("touch %d", tv), "store")
+	}
+	return ops
 }
 
 func init() {
